@@ -26,7 +26,7 @@ func (c *Chans) IO(context.Context) (chan interface{}, chan *sio.Result, error) 
 	return c.In, c.Out, nil
 }
 func (c *Chans) Read(context.Context) (map[string]*crew.Machine, error) { return nil, nil }
-func (c *Chans) Stop(context.Context) error                              { return nil }
+func (c *Chans) Stop(context.Context) error                             { return nil }
 
 // NewCrew makes a crew whose channels the caller owns.
 func NewCrew(ctx context.Context, limit int, inCap, outCap int) (*sio.Crew, *Chans, error) {
